@@ -72,6 +72,17 @@ def run(ck):
         for j in range(nrows):
             L2.append("gmul 1 0 0 0 0 3 - $0 $1 0 0")
         add_case("satisfied, boundary size", L2, L2)
+    # public inputs on rows whose arithmetic selector is off (the quotient adds PI(X) unconditionally)
+    for _ in range(n_each):
+        L = ["w " + hx(rng.small()), "w " + hx(rng.small())]
+        for j in range(rng.choice([2, 3, 5])):
+            qar = rng.choice([0, 0, 1])
+            pi = rng.choice([0, rng.scalar(), rng.small() + 1])
+            sel = [0] * 12; sel[6] = pi; sel[7] = qar
+            if qar: sel[1] = 1; sel[5] = (-pi) % R; wires = ["0", "0", "0", "0"]      # 0 + (-pi) + pi = 0: satisfied
+            else: wires = [rng.choice(["$0", "$1", "0"]) for _ in range(4)]
+            L.append("raw " + " ".join(hx(x) for x in sel) + " 1 " + " ".join(wires))
+        add_case("public input on rows with and without the arithmetic selector", L, L)
     # range row as the last row of a full domain: next row is row 0
     for v in ([5, 1 << 20] if quick else [5, 1 << 20, 77, 3]):
         L = ["w " + hx(v)] + ["gmul 1 0 0 0 0 3 - $0 $0 0 0"] * 7 + [f"rbits 8 $0"]
@@ -151,7 +162,7 @@ def run(ck):
             ck.violation(f"prover returned a proof that fails verification ({tag}): {res[c3]}",
                          {"failing_input_found": True, "compiled_circuit": S.circuits[a], "instance": S.circuits[b]}, key="returned-bad-proof")
     return ck.finish(level="proof",
-        rule="layouts: random gadget mixes, raw rows with random selector combinations (incl. 16-row full domains whose last row reads row 0), gadget ending at the domain end; instances: satisfying, one witness overridden, different wiring breaking a compiled copy constraint with every row satisfied, wrong size; verdict of the extracted row evaluator on (compiled selectors, instance wires) + copy-class check vs Prover::prove; every returned proof is verified",
+        rule="layouts: random gadget mixes, raw rows with random selector combinations (incl. 16-row full domains whose last row reads row 0), rows carrying a (zero / non-zero) public input with the arithmetic selector on or off, gadget ending at the domain end; instances: satisfying, one witness overridden, different wiring breaking a compiled copy constraint with every row satisfied, wrong size; verdict of the extracted row evaluator on (compiled selectors, instance wires) + copy-class check vs Prover::prove; every returned proof is verified",
         assumptions=["detection of a non-divisible numerator by the degree test is exact for n >= 4 (argued in DESIGN.md section 1; not mechanised)",
                      "challenges avoid the bounded bad sets of the separation theorem"],
         checker_cmd=proofgate.CHECKER_CMD, trusted_base=proofgate.TRUSTED)
